@@ -106,7 +106,63 @@ func runC16History(rc *RunCtx) *simkit.Violation {
 
 func c16History(prop string, w *simkit.World, t *simkit.Tape, st storage.Store, model map[string][]byte, steps int, note func(string, ...interface{}), tr func() string, pickKey func() string) *simkit.Violation {
 	for i := 0; i < steps; i++ {
-		switch t.Pick(0, 0, 1, 2, 3, 4, 5, 6, 6, 6) {
+		switch t.Pick(0, 0, 1, 2, 3, 4, 5, 6, 6, 6, 7, 8, 9) {
+		case 7: // Touch: refreshes the object's time, never its content
+			k := pickKey()
+			want, exists := model[k]
+			err := st.Touch(bg, k) // (times are not compared: the simulated clock and a real directory's kernel clock differ)
+			note("touch %q exists=%v err=%v", k, exists, err != nil)
+			if exists && err != nil {
+				return Viol(prop, "touch-failed", "Touch", k, "Touch(%q) of an existing key failed: %v (history: %s)", k, err, tr())
+			}
+			if !exists && err == nil {
+				if has, _ := st.Has(bg, k); has {
+					return Viol(prop, "touch-created", "Touch", k, "Touch(%q) of a missing key created it (history: %s)", k, tr())
+				}
+			}
+			if exists {
+				at, err := st.GetAttr(bg, k)
+				if err != nil || at.Size != int64(len(want)) {
+					return Viol(prop, "attr-wrong", "Touch", k, "after Touch(%q): size %d (written %d), err=%v", k, at.Size, len(want), err)
+				}
+			}
+		case 8: // Get streamed through the reader's WriteTo (what cafs and the bundle download use)
+			k := pickKey()
+			want, exists := model[k]
+			if !exists {
+				continue
+			}
+			r, err := st.Get(bg, k)
+			if err != nil {
+				return Viol(prop, "get-wrong", "Get", k, "Get(%q) failed: %v (history: %s)", k, err, tr())
+			}
+			wt, ok := r.(io.WriterTo)
+			if !ok {
+				_ = r.Close()
+				continue
+			}
+			var buf bytes.Buffer
+			n, err := wt.WriteTo(&buf)
+			_ = r.Close()
+			if err != nil || n != int64(len(want)) || !bytes.Equal(buf.Bytes(), want) {
+				return Viol(prop, "get-wrong", "Get-WriteTo", k, "Get(%q).WriteTo delivered %d bytes (reported %d) err=%v, last written %d bytes (history: %s)", k, buf.Len(), n, err, len(want), tr())
+			}
+		case 9: // Clear: every key is gone, the store stays usable
+			if !t.Bool(1, 3) {
+				continue
+			}
+			err := st.Clear(bg)
+			note("clear err=%v", err != nil)
+			if err != nil {
+				return Viol(prop, "clear-failed", "Clear", "", "Clear failed: %v (history: %s)", err, tr())
+			}
+			for k := range model {
+				delete(model, k)
+			}
+			ks, err := st.Keys(bg)
+			if err != nil || len(ks) != 0 {
+				return Viol(prop, "keys-wrong", "Keys-after-Clear", "", "after Clear, Keys() = %q err=%v (history: %s)", ks, err, tr())
+			}
 		case 0: // Put overwrite
 			k, data := pickKey(), t.Bytes(t.Pick(0, 1, 10, 100))
 			err := st.Put(bg, k, bytes.NewReader(data), storage.OverWrite)
